@@ -46,7 +46,7 @@ impl Property for C08 {
         vec!["'handed to the peer' = process_packet was called with the packet while the peer connection was not disconnected".into()]
     }
     fn pbt(&self, tier: Tier) -> PbtCfg {
-        PbtCfg { cases: tier.pick(120_000, 4_000_000), max_len: tier.pick(1500, 5000), shrink_ms: 120_000 }
+        PbtCfg { cases: tier.pick(120_000, 2_000_000), max_len: tier.pick(1500, 5000), shrink_ms: 120_000 }
     }
     fn required_labels(&self) -> Vec<&'static str> {
         vec!["ack_lost", "ack_dup", "ack_delayed_3s", "ranges>=3", "rel_slice_sent", "quiescence_checked"]
